@@ -48,8 +48,27 @@ def observer(got, pred, sp, call, sg, prog, ctx, part):
     def bad(obs, detail=None):
         pviolation(part, sg, obs, {'program': prog, 'den': interp.term_str(den), 'detail': detail}, own=part['_own'], prefixes=part['_prefixes'])
 
-    for k in (0, 2):
+    for k in (0, 2, -1):
         e = c04.fresh(ctx, ctx.cur_calls)          # fresh nodes: no per-node caches from the other regime
+        if k == -1:
+            # every sub-expression classified (recursively) before the parent is analysed iteratively
+            stack = [e]
+            seen = set()
+            while stack:
+                o = stack.pop()
+                if id(o) in seen:
+                    continue
+                seen.add(id(o))
+                for attr in ('left', 'right', 'operand'):
+                    ch = getattr(o, attr, None)
+                    if ch is not None and hasattr(ch, 'degree'):
+                        stack.append(ch)
+                if o is not e and hasattr(o, 'degree'):
+                    try:
+                        o.degree
+                    except Exception:
+                        pass
+            k = 0
         vm2 = apirun.varmap(ctx.cur_objs)
         with lowered(k):
             tag = 'thresholds=%d' % k
